@@ -233,6 +233,25 @@ func collect[T any](seq ociregistry.Seq[T]) (items []any, n int) {
 		items = append(items, itemErr{x, err})
 		return n < 5 // the consumer is patient but bounded
 	})
+	// The returned sequence is a value: ranging over it again belongs to the same call and has to
+	// deliver the same items and the very same error (nothing is constructed anew).
+	var again []any
+	m := 0
+	seq(func(x T, err error) bool {
+		m++
+		again = append(again, itemErr{x, err})
+		return m < 5
+	})
+	if !reflect.DeepEqual(items, again) {
+		items = append(items, fmt.Sprintf("RERUN-DIFFERS: second pass over the same sequence gave %v", again))
+	} else {
+		for i := range items {
+			if a, b := items[i].(itemErr), again[i].(itemErr); a.err != b.err {
+				items = append(items, fmt.Sprintf("RERUN-DIFFERS: item %d carries another error value on the second pass (%v)", i, b.err))
+				break
+			}
+		}
+	}
 	return items, n
 }
 
